@@ -129,7 +129,7 @@ def render_variant(v):
     rr = _r.Random(v["ident"] + str(len(v.get("noise", []))))
     if not v.get("plain"):
         lines = noise.fold_disabled(rr, lines)
-    for l in noise.place(rr, lines, v.get("noise", [])):
+    for l in noise.trailing_commas(rr, noise.place(rr, lines, v.get("noise", []))):
         attrs += "    %s\n" % l
     if v["kind"] == "unit":
         body = v["ident"] + (" = %d" % v["discr"] if v.get("discr") is not None else "")
@@ -231,7 +231,13 @@ def generate(rng, seed, size):
     probes = []
     for e in enums:
         decl, inst_fmt = GEN_DECL[e["generics"]]
+        if not (size == "robust"):
+            for l in noise.enum_noise(rng):
+                out.append(l + "\n")
         out.append("#[derive(EnumIter, Debug, PartialEq)]\n")
+        if size != "robust":
+            for l in noise.enum_strum_noise(rng):
+                out.append(l + "\n")
         out.append("pub enum %s%s {\n" % (e["name"], decl))
         for v in e["variants"]:
             out.append(render_variant(v))
